@@ -241,8 +241,11 @@ impl<K: SimKernel<D>, const D: usize> Monitor<K, D> for C15 {
         }
         // classification: a valid complex with at least one cell is a ball with chi = 1 and a sphere boundary
         if !post.cells.is_empty() {
-            let rv = refval::validate(post, Strength::Pseudomanifold, false);
-            if rv.ok() {
+            // "Euclidean triangulation" = a genuine geometric triangulation: PL-manifold ball
+            // (vertex links checked), every cell exactly positively oriented, convex boundary.
+            // Pinched pseudomanifolds (legal under TopologyGuarantee::Pseudomanifold) are excluded.
+            let rv = refval::validate(post, Strength::PLManifoldStrict, true);
+            if crate::geom::embedded(post, &rv) == crate::geom::Tri::Yes {
                 ctx.stats.evaluations += 1;
                 let cls = classify_triangulation(dt.tds());
                 let ok_cls = matches!(cls, Ok(TopologyClassification::Ball(d)) if d == D)
